@@ -106,8 +106,9 @@ func newConn(remote map[string]string, fresh bool) *fixture.VConn {
 		_, _ = c.CreateMailbox(ctx, nil, n)
 	}
 	c.NewMailbox("0", "INBOX")
-	for i, box := range []string{ridA, ridA, ridB} {
-		tag := fmt.Sprintf("m%d", i+1)
+	// rm4 is the message whose APPEND failed locally during set-up (the remote had accepted it)
+	for i, box := range []string{ridA, ridA, ridB, ridB} {
+		tag := fmt.Sprintf("m%d", (i+1)%4)
 		_, _, _ = c.CreateMessage(ctx, nil, imap.MailboxID(box), lit(tag), imap.NewFlagSet(), msgDate)
 	}
 	for id, tag := range remote {
@@ -190,6 +191,14 @@ func workerSetup(cfg *wcfg) {
 	must(c, "SELECT A")
 	must(c, `STORE 2 +FLAGS.SILENT (\Deleted)`)
 	must(c, "UNSELECT")
+	// a message that could not be stored (the store fails once) is rescued into the recovery mailbox: r0
+	s.cnt.mu.Lock()
+	s.cnt.armed, s.cnt.failName, s.cnt.failAt = true, "store.Set", -1
+	s.cnt.mu.Unlock()
+	if res := c.Append("B", "", lit("m0")); res.Status != "NO" {
+		fatal("APPEND with a failing store: %+v", res)
+	}
+	s.cnt.disarm()
 	c.Cmd("LOGOUT")
 	c.Close()
 	o := observe(s)
@@ -204,7 +213,9 @@ func workerSetup(cfg *wcfg) {
 func workerRun(cfg *wcfg) {
 	s := startServer(cfg, 1000)
 	s1 := dial(s.srv.Addr)
-	if strings.HasPrefix(cfg.Op, "CONN_") {
+	if strings.HasSuffix(cfg.Op, "_REC") {
+		must(s1, "SELECT "+wire.Quote("Recovered Messages"))
+	} else if strings.HasPrefix(cfg.Op, "CONN_") {
 		// The session of a connector-driven operation watches a mailbox the operation does not touch: a session
 		// applies the updates queued for it on its own goroutine whenever it gets to it, and those (empty)
 		// transactions would make the step numbering depend on the scheduler.
@@ -266,6 +277,10 @@ func workerRun(cfg *wcfg) {
 		imapCmd("COPY 1 B")
 	case "MOVE":
 		imapCmd("MOVE 1 B")
+	case "MOVE_REC":
+		imapCmd("MOVE 1 B")
+	case "COPY_REC":
+		imapCmd("COPY 1 B")
 	case "EXPUNGE":
 		imapCmd("EXPUNGE")
 	case "STORE":
